@@ -280,6 +280,7 @@ func (f *frame) contractCall(callee *ssa.Function, spec *FuncSpec, args []Val, i
 	}
 	pre := st.Clone()
 	env := vc.calleeEnv(callee, args, pre, pre)
+	env.specFile = spec.File
 	for _, l := range spec.Lets {
 		env.vars[l.Kind] = vc.evalSpec(env, l.Expr)
 	}
@@ -317,6 +318,7 @@ func (f *frame) contractCall(callee *ssa.Function, spec *FuncSpec, args []Val, i
 	}
 	res := f.freshVal(callName(site), rtype, in, st)
 	post := vc.calleeEnv(callee, args, st, pre)
+	post.specFile = spec.File
 	for k, v := range env.vars {
 		if _, ok := post.vars[k]; !ok {
 			post.vars[k] = v
